@@ -82,6 +82,41 @@ def kill_case(args):
         sc.close()
 
 
+def stale_case(args):
+    """history: complete run; one output is deleted (its audit file stays, the usual way to force a re-computation);
+    the re-run's command fails after a partial write (temp dir left behind); the workflow is started once more, as it is:
+    whatever that run does, nothing but a complete output of a successful command may appear at the final path"""
+    seed, i = args
+    rng = random.Random(seed * 86028157 + i)
+    sp = workflows(rng, i)
+    model = t3.run_model(sp.text())
+    victim = rng.choice([t for t in model["tasks"] if t["status"] == "run"])
+    p = next(q for q in sp.procs() if q.name == victim["proc"])
+    sc = t3.Scratch()
+    try:
+        sc.plant(sp.files)
+        r1 = t3.run_impl(sc, sp, timeout=60)
+        problems = []
+        if r1["rc"] != 0:
+            problems.append(("unexpected-failure", r1["stderr"][-200:]))
+        for port, st, path in victim["outs"]:
+            try:
+                os.remove(os.path.join(sc.work, path))
+            except OSError:
+                pass
+        p.fail = rng.choice(["partial", "signal"] if not p.gofunc else ["partial"])
+        p.failkey = os.path.basename(victim["ins"][0][2][0])
+        r2 = t3.run_impl(sc, sp, timeout=60)
+        p.fail = "none"
+        r3 = t3.run_impl(sc, sp, timeout=60)
+        for tag, r in (("after the failing re-run", r2), ("after the run that followed it", r3)):
+            problems += [(k, tag + ": " + m) for k, m in t3.atomicity_problems(sp, model, r["fs"])]
+        return {"spec": sp.text(), "bufsize": sp.bufsize, "problems": problems, "point": None, "rc": r3["rc"], "stderr": r3["stderr"][-200:], "yield": None,
+                "ntasks": len(model["tasks"]), "wall": r1["wall"], "kind": "stale-audit-history"}
+    finally:
+        sc.close()
+
+
 def run(rep, tier, seed):
     proved = vlib.prove(rep, MODULE, THEOREMS)
     ok, msg = vlib.build_ocaml()
@@ -102,10 +137,11 @@ def run(rep, tier, seed):
     results = t3.run_many(crash_case, cases)
     results += t3.run_many(fail_case, [(seed, i) for i in range(40 if tier == "quick" else 600)])
     results += t3.run_many(kill_case, [(seed, i, 0) for i in range(40 if tier == "quick" else 1500)])
+    results += t3.run_many(stale_case, [(seed, i) for i in range(16 if tier == "quick" else 300)])
     t3.report_t3(rep, MODULE, proved, results, "T3 crash-point / failure / SIGKILL enumeration")
     rep.cov["evaluations"] = len(results)
     rep.cov["distinct_nontrivial"] = len({(r["spec"], r["point"], r["kind"]) for r in results})
-    rep.cov["rule"] = "fault enumeration on workflows with a two-output task (sub-directory / modified names, additional file), a Go-function or shell task and a two-input join: the process group is killed at every hit of every hook point of Task.Execute, FinalizePaths, Process.Run, createTasks and runProcs (plus a sample of port / slot points); one task fails in each of five ways (shell) or four (Go function); the process group is SIGKILLed at a random instant while commands run; after each, every file at a declared output path must be the complete output of a successful command of its task, and nothing else may have appeared outside the temp dirs; every (workflow, point, kind) is distinct and non-trivial"
+    rep.cov["rule"] = "fault enumeration on workflows with a two-output task (sub-directory / modified names, additional file), a Go-function or shell task and a two-input join: the process group is killed at every hit of every hook point of Task.Execute, FinalizePaths, Process.Run, createTasks and runProcs (plus a sample of port / slot points); one task fails in each of five ways (shell) or four (Go function); the process group is SIGKILLed at a random instant while commands run; histories run / delete an output but keep its audit file / re-run with a command that fails after a partial write / run again as it is; after each, every file at a declared output path must be the complete output of a successful command of its task, and nothing else may have appeared outside the temp dirs; every (workflow, point, kind) is distinct and non-trivial"
     rep.cov["samples"] = [{"point": results[5]["point"], "rc": results[5]["rc"]}, results[0]["spec"]]
     kinds = {}
     for r in results:
